@@ -167,13 +167,22 @@ MODES = [2, 3, 4, None]    # bootloader, signer, ui heartbeat, no app (GET_MODE 
 
 class AdminDevice(SimDevice):
     onboard_pin = None
+    sgx_personality = False
 
     def __init__(self, mode):
         super().__init__()
         self.mode = mode
+        self.touched_while_onboarded = []     # seed bytes / wipe / SGX onboard commands that reached an onboarded device
+        # (PIN bytes also precede the unlock that follows a Ledger onboarding: they are judged by the wipe they lead to)
 
     def handle(self, apdu):
         a = blist(apdu)
+        if a[1] in ((0x44, 0x07) if not self.sgx_personality else (0xA0,)) and self.onboarded == 1:
+            self.touched_while_onboarded.append(a[1])
+        if a[1] == 0xA0:
+            r = SimDevice.handle(self, apdu)
+            self.onboarded = 1
+            return r
         if a[1] == 0x43 and self.mode is None:
             from sim.base import raise_fault, FAULT_SW
             raise_fault(FAULT_SW, 0x6E00)
@@ -282,35 +291,96 @@ def onboarding(m: int, onb: int, echo: bool, a0: int, a1: int, a2: int, p0: int,
         return policy_ok(got_pin) or (any_pin and not given and alnum_only(got_pin))
 
 
-@obligation(tier="quick", parts=8, timeout=200,
-            part_names=lambda i: ["ledger/unlock", "sgx/unlock", "ledger/changepin", "sgx/changepin"][i % 4] +
-            "/symbolic: " + ["device state", "pins and flags"][i // 4],
+@obligation(tier="quick", parts=2, timeout=240, part_names=["ledger", "sgx"],
+            bounds="all preconditions hold and the operator says yes; ONE exchange of the flow (symbolic index 0..59) loses its answer: "
+                   "time-out | write error | read error, either before the device saw the command or after it carried it out "
+                   "(symbolic); oracle: no seed byte and no wipe / onboard command reaches a device that is already onboarded",
+            examples=[(0, dict(k=0, kind=2, after=False)), (0, dict(k=45, kind=2, after=True)), (1, dict(k=3, kind=2, after=True)),
+                      (0, dict(k=59, kind=4, after=True))])
+def onboarding_lost_answer(k: int, kind: int, after: bool) -> bool:
+    """
+    pre: 0 <= k <= 59 and 2 <= kind <= 4
+    post: _
+    """
+    from sim.base import raise_fault
+    platform = ["ledger", "sgx"][part()]
+    d = AdminDevice(2)
+    d.sgx_personality = platform == "sgx"
+    d.onboarded = 0
+    opts = Options(pin="abcd1234")
+    with Env(platform, d, ["yes", "no", "no"], []) as env:
+        def hook(i, apdu):
+            if i == k:
+                raise_fault(kind)
+        if after:
+            env.world.after_hook = hook
+        else:
+            env.world.fault_hook = hook
+        run(onboard.do_onboard, opts)        # (how the command ends - error message or exception - is not this property's subject)
+        return d.touched_while_onboarded == []
+
+
+# (command, focus): what is symbolic / where the PINs come from
+UC_FOCUS = ["device state", "pins and flags, PINs on the command line", "pins and flags, new PIN typed", "pins and flags, current PIN typed",
+            "pins and flags, both PINs typed"]
+UC_PARTS = [(p, f) for f in (0, 1) for p in range(4)] + [(0, 3), (1, 3)] + [(p, f) for f in (2, 3, 4) for p in (2, 3)]
+
+
+@obligation(tier="quick", parts=len(UC_PARTS), timeout=200,
+            part_names=lambda i: ["ledger/unlock", "sgx/unlock", "ledger/changepin", "sgx/changepin"][UC_PARTS[i][0]] +
+            "/symbolic: " + UC_FOCUS[UC_PARTS[i][1]],
             bounds="device mode x onboard byte 0..255 x echo x unlock answer symbolic; PIN / new PIN symbolic selections from 9 strings; "
-                   "any-pin and no-unlock flags symbolic",
+                   "any-pin and no-unlock flags symbolic; each PIN given on the command line or typed at the prompt (partitions; a rejected typed "
+                   "PIN is followed by a compliant second attempt)",
             examples=[(0, dict(m=0, onb=1, echo=True, ul=1, p0=0, p1=0, anyp=False, nounlock=False)),
                       (0, dict(m=1, onb=1, echo=True, ul=1, p0=0, p1=0, anyp=False, nounlock=False)),
                       (2, dict(m=0, onb=1, echo=True, ul=1, p0=0, p1=2, anyp=False, nounlock=False)),
                       (7, dict(m=0, onb=1, echo=True, ul=1, p0=0, p1=7, anyp=True, nounlock=True)), (6, dict(m=0, onb=1, echo=True, ul=1, p0=0, p1=2, anyp=False, nounlock=False)),
-                      (2, dict(m=0, onb=0, echo=True, ul=1, p0=0, p1=0, anyp=False, nounlock=False))])
+                      (2, dict(m=0, onb=0, echo=True, ul=1, p0=0, p1=0, anyp=False, nounlock=False)),
+                      (UC_PARTS.index((2, 2)), dict(m=0, onb=1, echo=True, ul=1, p0=0, p1=2, anyp=False, nounlock=False)),
+                      (UC_PARTS.index((3, 4)), dict(m=0, onb=1, echo=True, ul=1, p0=2, p1=1, anyp=False, nounlock=False)),
+                      (UC_PARTS.index((0, 3)), dict(m=0, onb=1, echo=True, ul=1, p0=3, p1=0, anyp=False, nounlock=False))])
 def unlock_and_changepin(m: int, onb: int, echo: bool, ul: int, p0: int, p1: int, anyp: bool, nounlock: bool) -> bool:
     """
     pre: 0 <= m <= 3 and 0 <= onb <= 255 and 0 <= ul <= 255
     pre: 0 <= p0 < len(PINS) and 0 <= p1 < len(PINS)
     post: _
     """
-    p = part() % 4
-    if part() // 4 == 0:
+    p, focus = UC_PARTS[part()]
+    typed_cur, typed_new = focus in (3, 4), focus in (2, 4)
+    if focus == 0:
         p0, p1, anyp = 0, 7, False          # device state symbolic, PINs valid
     else:
         m, onb, echo, ul = 0, 1, True, 1    # PINs and flags symbolic, device in order
     platform = ["ledger", "sgx"][p % 2]
     change = p >= 2
+    if not change:
+        typed_new = False
     d = AdminDevice(MODES[m])
     d.onboarded = onb
     d.echo_ok = echo
     d.unlock_ok = ul
-    opts = Options(pin=PINS[p0], new_pin=PINS[p1] if change else None, any_pin=anyp, no_unlock=nounlock)
-    with Env(platform, d) as env:
+    # PINs are given on the command line or typed at the prompt (the prompt repeats until it gets an acceptable one; the operator's
+    # second attempt is a compliant PIN).  The unlock prompt comes first - it exists only if unlocking was not switched off.
+    unlock_prompted = typed_cur and not (change and nounlock)
+    opts = Options(pin=None if typed_cur else PINS[p0], new_pin=(None if typed_new else PINS[p1]) if change else None,
+                   any_pin=anyp, no_unlock=nounlock)
+    # what the operator types: a first attempt and, only if the prompt rejects it, a second one (unlock prompt: any alphanumerics
+    # are accepted; new-PIN prompt: the policy, or any alphanumerics with any-pin)
+    typed = []
+    cur_pin = PINS[p0].encode()
+    if unlock_prompted:
+        typed.append(PINS[p0])
+        if not alnum_only(cur_pin):
+            typed.append("zz11yy22")
+            cur_pin = b"zz11yy22"
+    new_pin = PINS[p1].encode()
+    if typed_new:
+        typed.append(PINS[p1])
+        if not (alnum_only(new_pin) if anyp else policy_ok(new_pin)):
+            typed.append("new1pin2")
+            new_pin = b"new1pin2"
+    with Env(platform, d, typed_pins=typed) as env:
         res = run(changepin.do_changepin if change else unlock.do_unlock, opts)
         if res.startswith("raised"):
             return False
@@ -321,18 +391,19 @@ def unlock_and_changepin(m: int, onb: int, echo: bool, ul: int, p0: int, p1: int
     if d.unlock_pins:
         if not (MODES[m] == 2 and onb == 1 and echo):
             ok = False
-        if bytes(d.unlock_pins[0]) != PINS[p0].encode() or len(d.unlock_pins) != 1:
+        if bytes(d.unlock_pins[0]) != cur_pin or len(d.unlock_pins) != 1:
             ok = False
     elif 0x41 in cmds and not change:
         ok = False
-    pin_ok_for_unlock = alnum_only(PINS[p0].encode()) if anyp else policy_ok(PINS[p0].encode())
+    # (a PIN given on the command line is checked against the policy / any-pin; one typed for unlocking only has to be alphanumeric)
+    pin_ok_for_unlock = True if unlock_prompted else (alnum_only(cur_pin) if anyp else policy_ok(cur_pin))
     if not change:
         # when the preconditions hold the PIN is presented
         if MODES[m] == 2 and onb == 1 and echo and pin_ok_for_unlock and len(d.unlock_pins) != 1:
             ok = False
         return ok
     # ---- change pin
-    newp = PINS[p1].encode()
+    newp = new_pin
     new_ok = alnum_only(newp) if anyp else policy_ok(newp)
     if d.newpin_offered:
         offered = bytes(d.newpin_offered[0])
